@@ -33,5 +33,10 @@ META.update({
  "C18": {"text": "Generated purge configurations x workloads (whole pages of a surviving segment, whole segments, everything) x virtual-clock advances x ordinary activity without any forced collect; the OS shim's log of madvise/mprotect calls decides presence (delay > 0 after expiry, delay 0 at once) or total absence (delay -1) of purging per freed region. Found and now guards the repaired arena-expiry comparison defect (F3).",
          "design_ref": "DESIGN.md §5 C18, §6 F3", "note": NOTE_HIST + " An expectation is only evaluated when its premise is observable (clock beyond delay*mult, a non-forced collect or a free in the same segment happened before the memory could be handed out again).", "technique": "property-based testing with a virtual clock and an interposed OS layer: generated purge scenarios, oracle = presence/absence of purge calls per freed region"},
 })
+
+META.update({
+ "C07": {"text": "For generated workloads x option settings, every position k in the measured sequence of OS calls of each kind (map, unmap, commit, protect, purge-advise) x {fail once, fail persistently} is executed in a fresh process through the OS shim (a refused commit really leaves PROT_NONE). Oracle: no crash, NULL or valid block, live blocks intact, a full recovery workload after the fault is lifted, and everything given back after free-all. Fault enumeration is the right level: the quantifier is over fault positions, which are enumerated densely (strided beyond 40/200 per kind). Found and now guards three repaired defects (F9 F10 F11).",
+         "design_ref": "DESIGN.md §5 C07, §6 F9-F11", "note": NOTE_HIST + " Faults are injected at the libc boundary used by src/prim/unix/prim.c; only release and secure builds (the debug build asserts that decommit cannot fail).", "technique": "fault injection enumerated over OS-call positions (property-based workloads, interposed OS layer), model-based oracle"},
+})
 ALL = ["C%02d" % i for i in range(1, 21)]
 NOT_APPLICABLE = [{"property_id": p, "reason": "check not built yet in this revision (planned, see DESIGN.md §10); not claimed"} for p in ALL if p not in CHECKS]
